@@ -150,6 +150,8 @@ def check(case, res, k, sig):
         labels.append("outside_plan_and_run")
     if in_del:
         labels.append("in___del__")
+    if any(e.get("watchdog") for e in obs.events if e["e"] == "exit"):
+        labels.append("watchdog_fired")
     ev_idx = inj.get("event_idx", 0)
     running = inj.get("running", [])
     live = inj.get("live", [])
